@@ -157,7 +157,7 @@ func c16RunFilter(r *verifkit.Run, c c16FilterCase, desc string) (dupKeys, concu
 
 func c16FilterWorkload(r *verifkit.Run, repeats int) {
 	r.SetRule("1-24 distinct (sender, seqno) pairs over 1-4 senders (ids include dashes, digits and the empty string), 1-5 copies each, shuffled and dealt to 2-8 goroutines that call the filtered handler concurrently from a common barrier; oracle: delegate invocations per pair <= 1 (and >= 1). non-trivial = some pair had >= 2 copies handled by different goroutines")
-	n := r.N(300, 5000)
+	n := r.N(300, 10000)
 	var dups, conc int64
 	for i := 0; i < n; i++ {
 		c := c16GenFilterCase(r.SubRand("filter", i))
